@@ -10,6 +10,7 @@ against a real server with a blocking handler: the concurrent-entry counter neve
 are served, oversize bodies get 413 without reaching the handler, shutdown lets in-flight requests finish.
 Not modelled, only observed: idle-client time-out, completeness of responses on the wire.
 """
+import os
 import socket
 import threading
 import time
@@ -376,6 +377,114 @@ def real_sockets(ctx):
             ctx.violation("a response was truncated", case)
 
 
+def silent_clients(ctx):
+    """clients that connect and then say nothing (plain TCP, and TLS: nothing at all, or the handshake and then nothing): another client
+    is served meanwhile, the silent ones are dropped after the configured time-out, and serve() returns at shutdown"""
+    import http.client
+    import shutil
+    import ssl
+    import tempfile
+    from radicale import config, server
+    from common import quiet_radicale
+    quiet_radicale()
+    static = os.path.join(os.path.dirname(server.__file__), "tests", "static")
+    rng = ctx.rng("silent")
+    for rnd in range(ctx.n(4, 24)):
+        tls = rnd % 2 == 1
+        if tls and not os.path.exists(os.path.join(static, "cert.pem")):
+            continue
+        timeout = 1
+        maxc = rng.choice([2, 3])
+        nsilent = rng.randint(1, maxc - 1)
+        silent_kind = rng.choice(["nothing", "handshake-then-nothing"]) if tls else "nothing"
+        s0 = socket.socket()
+        s0.bind(("127.0.0.1", 0))
+        port = s0.getsockname()[1]
+        s0.close()
+        folder = tempfile.mkdtemp(prefix="rverif-c20s-")
+        conf = config.load()
+        srv = {"hosts": "127.0.0.1:%d" % port, "max_connections": str(maxc), "timeout": str(timeout)}
+        if tls:
+            srv.update({"ssl": "True", "certificate": os.path.join(static, "cert.pem"), "key": os.path.join(static, "key.pem")})
+        conf.update({"server": srv, "storage": {"filesystem_folder": folder}, "auth": {"type": "none"}}, "verif", privileged=True)
+        sd_in, sd_out = socket.socketpair()
+        th = threading.Thread(target=server.serve, args=(conf, sd_out), daemon=True)
+        th.start()
+        cctx = None
+        if tls:
+            cctx = ssl.create_default_context()
+            cctx.check_hostname = False
+            cctx.verify_mode = ssl.CERT_NONE
+        silents = []
+        res = {"served_in": None, "status": None, "dropped_after": [], "returned": None}
+        try:
+            t_conn = None
+            for _ in range(100):
+                try:
+                    c = socket.create_connection(("127.0.0.1", port), timeout=5)
+                    silents.append(c)
+                    break
+                except ConnectionRefusedError:
+                    time.sleep(0.05)
+            for _ in range(nsilent - 1):
+                silents.append(socket.create_connection(("127.0.0.1", port), timeout=5))
+            t_conn = time.time()
+            if tls and silent_kind == "handshake-then-nothing":
+                silents = [cctx.wrap_socket(c, server_hostname="localhost") for c in silents]
+            time.sleep(0.2)
+            # a talking client must be served while the silent ones sit there
+
+            def talk():
+                t0 = time.time()
+                try:
+                    c = (http.client.HTTPSConnection("127.0.0.1", port, timeout=6, context=cctx) if tls
+                         else http.client.HTTPConnection("127.0.0.1", port, timeout=6))
+                    c.request("OPTIONS", "/")
+                    r = c.getresponse()
+                    r.read()
+                    res["status"] = r.status
+                    res["served_in"] = round(time.time() - t0, 2)
+                    c.close()
+                except Exception as e:
+                    res["status"] = repr(e)[:80]
+            tt = threading.Thread(target=talk, daemon=True)
+            tt.start()
+            tt.join(timeout=8)
+            # the silent ones are dropped once the time-out has passed
+            for c in silents:
+                c.settimeout(max(0.1, t_conn + timeout + 3 - time.time()))
+                try:
+                    data = c.recv(1)
+                    res["dropped_after"].append(round(time.time() - t_conn, 2) if data == b"" else "data")
+                except (socket.timeout, ssl.SSLError, TimeoutError) as e:
+                    res["dropped_after"].append(None if isinstance(e, (socket.timeout, TimeoutError)) else round(time.time() - t_conn, 2))
+                except OSError:
+                    res["dropped_after"].append(round(time.time() - t_conn, 2))
+            sd_in.close()
+            th.join(timeout=timeout + 6)
+            res["returned"] = not th.is_alive()
+        finally:
+            for c in silents:
+                try:
+                    c.close()
+                except OSError:
+                    pass
+            try:
+                sd_in.close()
+            except OSError:
+                pass
+            th.join(timeout=10)
+            shutil.rmtree(folder, ignore_errors=True)
+        case = dict(res, tls=tls, silent=silent_kind, silent_clients=nsilent, max_connections=maxc, timeout_s=timeout)
+        ctx.case("silent:%s:%s" % ("tls" if tls else "plain", silent_kind), sample=case, key=["silent", rnd], nontrivial=True)
+        if res["status"] != 200:
+            ctx.violation("with %d silent client(s) and max_connections=%d another client was not served (%s)" % (nsilent, maxc, res["status"]), case)
+        if any(d is None for d in res["dropped_after"]):
+            ctx.violation("a silent client still holds its connection %d s after the %d s time-out" % (3, timeout), case)
+        if res["returned"] is False:
+            ctx.violation("serve() did not return after the shutdown signal while silent clients were connected", case)
+
+
 def run(ctx):
     ctx.extra["rule"] = ("(a) environment schedules of 1-40 events (arrive / finish / loop / signal) x max_connections in {0,1,2,3,5} driving the "
                          "real serve() loop through scripted select/server/socket stand-ins; (b) Content-Length gate; (c) real sockets with a "
@@ -386,3 +495,4 @@ def run(ctx):
     scripted(ctx)
     gate(ctx)
     real_sockets(ctx)
+    silent_clients(ctx)
